@@ -47,7 +47,7 @@ func (c19) Cases(tier string) int {
 func (c19) Describe() core.Info {
 	return core.Info{
 		Level: "exploration",
-		Rule: "fact sets of 0-60 facts over 1-8 predicates (zero-arity, same symbol with two arities, predicates listed without facts), all constant kinds (names over the full lexer character set incl. '%', strings with every escape class and control characters, bytes, boundary numbers, integral/huge/tiny floats, times, durations incl. extremes, nested values) x {plain,gzip,zstd} x {deterministic,not} x {ReadInto each store kind, lazy SimpleColumnStore}; lazy view queried with a pattern per stored fact for every subset of <= 3 constant columns plus non-matching constants; deterministic writes from two differently ordered sources must be byte-identical. Oracle: canonical-set equality. Non-trivial: >= 2 predicates of different arity and a constant needing escaping or a structured value; distinct by canonical fact set + configuration.",
+		Rule: "fact sets of 0-60 facts over 1-8 predicates (zero-arity, same symbol with two arities, predicates listed without facts), all constant kinds (names over the full lexer character set incl. '%', strings with every escape class and control characters, bytes, boundary numbers, integral/huge/tiny floats, times, durations incl. extremes, nested values; every 150th fact set holds a value that prints to more than 64 KiB) x {plain,gzip,zstd} x {deterministic,not} x {ReadInto each store kind, lazy SimpleColumnStore}; lazy view queried with a pattern per stored fact for every subset of <= 3 constant columns plus non-matching constants; deterministic writes from two differently ordered sources must be byte-identical; the lazy view is written again (deterministic and not), must reload to the same facts, give the same deterministic bytes and still answer afterwards. Oracle: canonical-set equality. Non-trivial: >= 2 predicates of different arity and a constant needing escaping or a structured value; distinct by canonical fact set + configuration.",
 		Assumptions: []string{"ReadInto target defaults to the array store (hash conflation of other stores is C06's finding)", "lines stay below bufio.Scanner's 64KiB token limit"},
 	}
 }
@@ -78,6 +78,32 @@ func (c19) Gen(r *rand.Rand, tier string, i int) any {
 	pool := make([]gen.Val, 3+r.Intn(8))
 	for k := range pool {
 		pool[k] = gen.RandVal(r, o, 0)
+	}
+	if i%150 == 77 {
+		// a value whose printed form is longer than 64 KiB (one column line of the file): a long string, a long
+		// byte string or a long list
+		switch r.Intn(3) {
+		case 0:
+			pool[0] = gen.Str(strings.Repeat("long \"cell\" ", 6000+r.Intn(3000)))
+		case 1:
+			pool[0] = gen.BytesV(bytes.Repeat([]byte{0, 'x', 255}, 9000+r.Intn(3000)))
+		default:
+			xs := make([]gen.Val, 14000+r.Intn(3000))
+			for k := range xs {
+				xs[k] = gen.Num(int64(k % 7))
+			}
+			pool[0] = gen.ListV(xs...)
+		}
+		for _, p := range preds {
+			if p.Arity > 0 {
+				a := gen.AtomV{P: p.P, Args: make([]gen.Val, p.Arity)}
+				for j := range a.Args {
+					a.Args[j] = pool[j%len(pool)]
+				}
+				c.Facts = append(c.Facts, a)
+				break
+			}
+		}
 	}
 	for k := 0; k < nf; k++ {
 		p := preds[r.Intn(len(preds))]
@@ -384,6 +410,41 @@ func c19Exec(c c19Case, res *core.Result) *c19Fail {
 				return fl
 			}
 		}
+	}
+	// re-save: the lazy view is itself a fact store that can be written again ("writing any fact store"); the
+	// result must reload to the same facts, deterministic bytes must not depend on the source being a file view,
+	// and the view must still answer afterwards
+	var detRef bytes.Buffer
+	if err := (factstore.SimpleColumn{Deterministic: true}).WriteTo(srcA, &detRef); err != nil {
+		return &c19Fail{"write-error", fmt.Sprintf("WriteTo failed: %v", err)}
+	}
+	for _, det := range []bool{true, false} {
+		var b bytes.Buffer
+		if err := (factstore.SimpleColumn{Deterministic: det}).WriteTo(lazy, &b); err != nil {
+			return &c19Fail{"resave-error", fmt.Sprintf("WriteTo(lazy view, deterministic=%v) failed: %v", det, err)}
+		}
+		if det && !bytes.Equal(b.Bytes(), detRef.Bytes()) {
+			return &c19Fail{"resave-deterministic-bytes-differ", fmt.Sprintf("deterministic output written from the lazy view differs from the one written from the in-memory store:\n--- lazy\n%s\n--- memory\n%s", b.Bytes(), detRef.Bytes())}
+		}
+		again := factstore.NewMultiIndexedArrayInMemoryStore()
+		if err := (factstore.SimpleColumn{}).ReadInto(bytes.NewReader(b.Bytes()), again); err != nil {
+			return &c19Fail{"resave-read-error", fmt.Sprintf("a file written from the lazy view (deterministic=%v) cannot be read: %v", det, err)}
+		}
+		g2 := canon.Set{}
+		for _, f := range allFacts(again) {
+			g2.Add(f)
+		}
+		if miss, extra := canon.Diff(model, g2, 5); len(miss) > 0 || len(extra) > 0 {
+			return &c19Fail{"resave-set-differs", fmt.Sprintf("re-saving the lazy view (deterministic=%v) changes the facts: missing %v, unexpected %v", det, miss, extra)}
+		}
+		for p := range listed {
+			if f := query(ast.NewQuery(p), func(ast.Atom) bool { return true }); f != nil {
+				f.sig = "after-resave:" + f.sig
+				f.msg = fmt.Sprintf("after WriteTo(lazy view, deterministic=%v): %s", det, f.msg)
+				return f
+			}
+		}
+		res.Ob("resaves_of_the_lazy_view", 1)
 	}
 	return nil
 }
